@@ -1,7 +1,7 @@
 """C20 — type-erased value holder keeps value semantics and single ownership.
 
 vs <op>*  : four ValueStore holders; ops set:i:ty:v (h[i] = T(v)), cp:i:j (h[j] = h[i]), sw:i:j, ad:i:ty:v (assimilate(new T(v))),
-            cl:i, su:i (surrender), vc:i:ty (value_cast); types 0,1 fit sizeof(void*) (stored in place), 2,3 are heap types
+            cl:i, su:i (surrender), ra:i (the caller takes a heap object out and hands the same object back), vc:i:ty (value_cast); types 0,1 fit sizeof(void*) (stored in place), 2,3 are heap types
 rc <op>*  : four IntrusiveSharedPtr<RefCountable>; new:i, as:i:j (p[j] = p[i]), rs:i
 rcopt <perm> : one Option shared by a group, a copy of the group, two contexts and parsed values, destroyed in the given order
 impl   : real classes with instrumented payloads (identity = id stored inside the object), ASan/LSan
@@ -40,7 +40,8 @@ def gen_vs(rng):
         elif k < 0.65: ops.append("sw:%d:%d" % (i, j))
         elif k < 0.75: ops.append("ad:%d:%d:%d" % (i, rng.randint(0, 3), rng.randint(-50, 50)))
         elif k < 0.82: ops.append("cl:%d" % i)
-        elif k < 0.88: ops.append("su:%d" % i)
+        elif k < 0.86: ops.append("su:%d" % i)
+        elif k < 0.92: ops.append("ra:%d" % i)              # surrender + assimilate of the SAME object
         else: ops.append("vc:%d:%d" % (i, rng.randint(0, 3)))
     return {"comp": "vs", "ops": ops}
 
@@ -52,7 +53,7 @@ def gen_rc(rng):
     return {"comp": "rc", "ops": ops}
 
 def corpus(ctx):
-    return [{"comp": "vs", "ops": "set:0:0:5 set:1:2:7 cp:0:2 sw:1:2 ad:3:0:9 vc:0:0 vc:0:1 su:2 cl:0 set:3:3:1 cp:1:1 sw:0:0".split()}] + \
+    return [{"comp": "vs", "ops": "set:0:0:5 set:1:2:7 cp:0:2 sw:1:2 ad:3:0:9 vc:0:0 vc:0:1 su:2 cl:0 set:3:3:1 cp:1:1 sw:0:0 ad:1:2:4 ra:1 vc:1:2 ra:0 ra:3".split()}] + \
            [{"comp": "rcopt", "ops": ["".join(p)]} for p in itertools.permutations("gh12p")]
 
 def generate(ctx):
